@@ -225,11 +225,29 @@ static void c11_tables(Case& cs) {
   CdnsBlock blk(bp, 0);
   TabModel tm[T_N];
   unsigned nops = (unsigned)c.range(1, 10 + cs.size * 10);
-  uint64_t hits = 0, distinct = 0, clears = 0;
+  uint64_t hits = 0, distinct = 0, clears = 0, rollbacks = 0;
+  std::unique_ptr<CdnsBlock> snap; TabModel snap_tm[T_N];
+  std::pair<int, Spec> last_added; bool have_last = false, force_last = false;
   std::vector<std::pair<int, Spec>> recent;
   std::ostringstream tr;
   for (unsigned step = 0; step < nops; step++) {
-    uint64_t op = c.range(0, 19);
+    uint64_t op = c.range(0, 21);
+    if (op == 20) {           // the application keeps a snapshot of the block ...
+      snap.reset(new CdnsBlock(blk));
+      for (int t = 0; t < T_N; t++) snap_tm[t] = tm[t];
+      tr << "snapshot\n";
+      continue;
+    }
+    if (op == 21) {           // ... and later rolls back to it by assignment: the block is then the snapshot's content, nothing else
+      if (!snap) continue;
+      if (c.coin()) blk = *snap; else { CdnsBlock tmp(*snap); blk = std::move(tmp); }
+      for (int t = 0; t < T_N; t++) tm[t] = snap_tm[t];
+      force_last = have_last && c.coin();   // the value handled last before the assignment is often the first one added after it
+      rollbacks++;
+      tr << "rollback\n";
+      verify_all(blk, tm, "after assignment");
+      continue;
+    }
     if (op == 19) {           // clear
       blk.clear();
       for (auto& m : tm) { m.idx.clear(); m.at.clear(); }
@@ -241,7 +259,8 @@ static void c11_tables(Case& cs) {
     }
     if (op == 18) { verify_all(blk, tm, "periodic"); continue; }
     int t; Spec p;
-    if (op >= 14 && !recent.empty()) {        // neighbour of a stored value (differs in exactly one member) or the value again
+    if (force_last) { force_last = false; t = last_added.first; p = last_added.second; op = 0; }
+    else if (op >= 14 && !recent.empty()) {        // neighbour of a stored value (differs in exactly one member) or the value again
       auto& r = recent[c.range(0, recent.size() - 1)];
       t = r.first; p = c.coin() ? mutate_spec(c, t, r.second) : r.second;
     } else {
@@ -272,6 +291,7 @@ static void c11_tables(Case& cs) {
     }
     VF_CHECK(blk_get_equals(blk, t, i, p), "sig=c11.get get(" << i << ") of " << TN[t] << " does not return the value just added " << p.show());
     if (recent.size() < 64) recent.emplace_back(t, p); else recent[step % 64] = std::make_pair(t, p);
+    last_added = std::make_pair(t, p); have_last = true;
   }
   verify_all(blk, tm, "end");
   size_t total = 0; for (auto& m : tm) total += m.idx.size();
@@ -279,6 +299,7 @@ static void c11_tables(Case& cs) {
   cs.st.cnt("dedup_hits", hits); cs.st.cnt("distinct_values", distinct); cs.st.cnt("clears", clears);
   if (total >= 64) cs.st.cls("tables>=64_entries");
   if (clears) cs.st.cls("with_clear");
+  if (rollbacks) cs.st.cls("with_assignment_from_snapshot");
   cs.sample = std::to_string(nops) + " ops, " + std::to_string(hits) + " dedup hits, " + std::to_string(distinct) + " distinct values, " + std::to_string(clears) + " clears; tail: " + tr.str().substr(tr.str().size() > 300 ? tr.str().size() - 300 : 0);
 }
 
@@ -376,6 +397,25 @@ static void c19_value(Case& cs) {
     }
     std::string bytes; read_file(fn, bytes);
     ref_content.clear();
+    if (!bytes.empty() && c.coin()) {
+      // a file from an encoder that does not de-duplicate its block tables (legal RFC 8618): copies of existing entries are
+      // appended to the tables (indices of the items stay valid); the reader keeps such tables as they are
+      cref::Node root; std::string perr;
+      if (cref::parse_all(bytes, root, perr) && root.kids.size() == 3) {
+        unsigned added = 0;
+        for (auto& blk : root.kids[2].kids) for (size_t i = 0; i + 1 < blk.kids.size(); i += 2) if (blk.kids[i].is_uint() && blk.kids[i].arg == 2 && blk.kids[i + 1].major == cref::MAP) {
+          cref::Node& tabs = blk.kids[i + 1];
+          for (size_t j = 0; j + 1 < tabs.kids.size(); j += 2) {
+            cref::Node& arr = tabs.kids[j + 1];
+            if (arr.major != cref::ARR || arr.kids.empty() || c.coin()) continue;
+            unsigned k = (unsigned)c.range(1, 3);
+            for (unsigned x = 0; x < k; x++) { cref::Node dup = arr.kids[c.range(0, arr.kids.size() - 1)]; arr.kids.push_back(dup); added++; }
+            arr.arg = arr.kids.size();
+          }
+        }
+        if (added) { bytes.clear(); cref::encode(root, bytes); write_file(fn, bytes); cs.st.cls("reader_source_with_duplicate_table_entries"); }
+      }
+    }
     if (bytes.empty()) { cs.st.cnt("reader_source_empty"); via_reader = false; src = new CdnsBlock(bp, 0); }
     else {
       std::istringstream is(bytes);
